@@ -67,6 +67,17 @@ TrGenerate ==
         /\ gens' = [gens EXCEPT ![Ev.g].s = r[1]]
   /\ UNCHANGED srcs
 
+(* a plain generator restored from a literal bincode image (= its state words, little-endian): whatever state a    *)
+(* generator is in - seeded, jumped, restored - one step returns the reference word and reaches the reference         *)
+(* successor.  Only when the image has the shape of the specification's state (see ObsOk).                           *)
+TrDeImage ==
+  /\ IsEvent("de_image") /\ NoPanic
+  /\ Ev.kind \in AlgKinds /\ Len(Ev.image) = AlgSeedLen(Ev.kind)
+  /\ LET s == ResolveD(Ev.kind, <<"verbatim", Ev.image>>) IN
+       /\ Expect("ok", TRUE, Has(Ev, "ok") /\ Ev.ok)
+       /\ gens' = (Ev.to :> [k |-> Ev.kind, s |-> s]) @@ gens
+  /\ UNCHANGED srcs
+
 TrSeedFromU64 ==
   /\ IsEvent("seed_from_u64") /\ NoPanic
   /\ Ev.kind \in AlgKinds
@@ -178,7 +189,7 @@ TrEq ==
 TrDrop == IsEvent("drop") /\ gens' = [g \in (DOMAIN gens) \ {Ev.g} |-> gens[g]] /\ UNCHANGED srcs
 
 Init == l = 1 /\ gens = <<>> /\ srcs = <<>>
-Next == \/ TrReset \/ TrFromSeed \/ TrFromSeedCore \/ TrGenerate \/ TrSeedFromU64 \/ TrSrc \/ TrFromRng("from_rng") \/ TrFromRng("try_from_rng") \/ TrNext("next_u32") \/ TrNext("next_u64") \/ TrSmNext32
+Next == \/ TrReset \/ TrFromSeed \/ TrFromSeedCore \/ TrGenerate \/ TrDeImage \/ TrSeedFromU64 \/ TrSrc \/ TrFromRng("from_rng") \/ TrFromRng("try_from_rng") \/ TrNext("next_u32") \/ TrNext("next_u64") \/ TrSmNext32
         \/ TrJump("jump") \/ TrJump("long_jump") \/ TrEq \/ TrDrop
         \/ TrStatePath("next_u32") \/ TrStatePath("next_u64") \/ TrStatePath("fill_bytes")
 Spec == Init /\ [][Next]_vars
